@@ -345,9 +345,17 @@ def q_model_spec(rnd, kinds_filter=None, min_layers=2, max_layers=5):
                         "po2_rounding": bool(rnd.randint(0, 1)), "quantization_delay": rnd.choice([0, 5])})
     elif t == "QBatchNormalization":
       kw = {"center": bool(rnd.randint(0, 1)), "scale": bool(rnd.randint(0, 1))}
-      if rnd.random() < 0.5:
+      r = rnd.random()
+      if r < 0.4:
         kw.update(gamma_quantizer=Qd("quantized_relu_po2", bits=6, max_value=4), beta_quantizer=Qd("quantized_po2", bits=5, max_value=4),
                   mean_quantizer=Qd("quantized_po2", bits=5, max_value=4), variance_quantizer=Qd("quantized_relu_po2", bits=6, max_value=4, quadratic_approximation=True))
+      elif r < 0.6:
+        # explicitly unquantized statistics (None differs from the constructor's po2 defaults)
+        kw.update(beta_quantizer=None, mean_quantizer=None)
+      elif r < 0.75:
+        kw.update(gamma_quantizer=None, variance_quantizer=None, beta_quantizer=Qd("quantized_bits", bits=8, integer=3, symmetric=1, alpha=1.0),
+                  mean_quantizer=Qd("quantized_bits", bits=8, integer=3, symmetric=1, alpha=1.0),
+                  inverse_quantizer=Qd("quantized_bits", bits=8, integer=3, symmetric=1, alpha=1.0))
       add(t, "qbn", kw)
     elif t == "QAveragePooling2D":
       if spatial >= 2:
